@@ -38,7 +38,7 @@ for p in props:
             "quick_cmd": "./check %s --tier quick" % pid,
             "thorough_cmd": "./check %s --tier thorough" % pid,
             "evidence_file": "/verif/evidence/%s.json" % pid,
-            "replay_cmd_template": "cat {path}",
+            "replay_cmd_template": "./replay {path}",
             "engine": "lean-model",
             "level_claimed": {
                 "category": "proof",
